@@ -15,6 +15,9 @@
    sets i_sender to the digest of the EMITTING contract's address (instantiate / execute / migrate / sudo /
    reply entry points alike), of the user at top level.  A funded WasmMsg::Execute / Instantiate (PFunded)
    must show the recording bank's Send record before the callee's own record iff the funds are non-empty.
+   Sub-messages range over the four reply_on modes x reply handler returns Ok / Err; the contract's reply entry
+   point records its INVOCATION out of band (pseudo-slot 9), so a reply under (module err, Success) or
+   (module ok, Error) shows in the log whatever the handler returns.
    k: 0.. = index of the first differing log entry, 100 = outcome of the call, 200.. = what a caller saw,
       300 = the earlier write, 400 = the modules' markers.
    This file holds definitions and lemmas that do not depend on the content of a generated table. *)
@@ -97,7 +100,7 @@ Qed.
 Lemma no_dq_f11_is_spec inp : has_distribution_query inp = false -> run f11_routes inp = run spec_routes inp.
 Proof.
   intros H. apply run_ext. split; [reflexivity|]. split; [reflexivity|].
-  intros p Hp. destruct p as [k x c|k x c|ins fc sp cp c]; auto.
+  intros p Hp. destruct p as [k x m h|k x c|ins fc sp cp m h]; auto.
   destruct k; try reflexivity. exfalso.
   unfold has_distribution_query in H. assert (E : existsb (fun p => match p with PQuery QDistribution _ _ => true | _ => false end) (i_probes inp) = true).
   { apply existsb_exists. exists (PQuery QDistribution x c). auto. }
